@@ -14,9 +14,9 @@ import (
 	pbredis "github.com/samaritan-proxy/samaritan/pb/config/protocol/redis"
 	"github.com/samaritan-proxy/samaritan/pb/config/service"
 	"github.com/samaritan-proxy/samaritan/proc"
-	"github.com/samaritan-proxy/samaritan/stats"
 	_ "github.com/samaritan-proxy/samaritan/proc/redis"
 	_ "github.com/samaritan-proxy/samaritan/proc/tcp"
+	"github.com/samaritan-proxy/samaritan/stats"
 
 	"verif.local/sim/cluster"
 	"verif.local/sim/refredis"
